@@ -41,7 +41,7 @@ IsplitFailing(c, o) ==
          (IF o.ends[n] = c.num THEN {} ELSE {"last_end_ne_num"}) \cup
          (IF \A i \in 1..(n - 1) : o.ends[i] = o.starts[i + 1] THEN {} ELSE {"not_contiguous"}) \cup
          (IF \A i \in 1..n : sz[i] >= 0 THEN {} ELSE {"negative_size"}) \cup
-         (IF \A i, j \in 1..n : sz[i] - sz[j] <= 1 THEN {} ELSE {"sizes_differ_by_more_than_1"}) \cup
+         (IF \A x, y \in VRange(sz) : x - y <= 1 THEN {} ELSE {"sizes_differ_by_more_than_1"}) \cup
          (IF \A i \in 1..(n - 1) : sz[i] >= sz[i + 1] THEN {} ELSE {"larger_not_first"})
 IsplitAccept(c, o) == IsplitFailing(c, o) = {}
 
